@@ -149,6 +149,7 @@ var tl1Prims = map[string]primSpec{
 	"StringReadBytes": {"string", "r"}, "StringWriteBytes": {"string", "w"},
 	"Uint64Read": {"u64", "r"}, "Uint64Write": {"u64", "w"},
 	"NatReadExactTag": {"tag", "r"},
+	"NatReadTag":      {"natres", "r"},
 	"ReadBool":        {"booltag", "r"},
 	"ByteRead":        {"byte", "r"}, "ByteWrite": {"byte", "w"},
 }
@@ -429,6 +430,11 @@ func (b *wireBuilder) call(n *CallN, dir string) []W {
 		}
 		w := &WPrim{Kind: ps.Kind, Pos: n.Pos}
 		switch ps.Kind {
+		case "natres":
+			w.Kind = "nat"
+			if len(n.Results) >= 1 {
+				w.Operand = b.canon(n.Results[0])
+			}
 		case "size":
 			if ps.Dir == "r" && len(n.Results) >= 2 {
 				w.Operand = b.canon(n.Results[1])
